@@ -271,6 +271,11 @@ func init() {
 		}
 		return e.tt.BV(t.sort.W, v)
 	})
+	z("Concretize8", func(e *Engine, fr *frame, a []Value) Value {
+		t := a[0].(*Term)
+		v := e.concretize(t, "zzverif.Concretize8")
+		return e.intConst(tUint8, v)
+	})
 	z("UF", func(e *Engine, fr *frame, a []Value) Value {
 		name := e.strArg(a[0], "UF name")
 		args := e.flatten(a[1], nil)
